@@ -15,6 +15,7 @@ Driver for the spec model (S): same line protocol as /verif/harness (the real ru
 -/
 import Yarel.Model.Basic
 import Yarel.Spec.Interp
+import Yarel.Spec.Census
 
 namespace Yarel.Drv.Spec
 open Yarel.Spec
@@ -98,7 +99,10 @@ def stepCase (c : Case) (step : String) : Case :=
     { c with st := State.bootstrap c.sources, out := c.out.push "{\"status\":\"new\"}" }
   else if step.startsWith "SCAN:" then
     { c with out := c.out.push (scanStep (step.drop 5).toString) }
-  else if step == "G" || step == "IDUMP" || step == "VDUMP" || step.startsWith "ID:" || step.startsWith "I:" then
+  else if step == "G" then
+    -- the collector has no counterpart here; what it may KEEP does: the reachability census of the store
+    { c with out := c.out.push (Yarel.Spec.Census.censusJson c.st) }
+  else if step == "IDUMP" || step == "VDUMP" || step.startsWith "ID:" || step.startsWith "I:" then
     -- steps of the real runner that concern the collector / intern table: not modelled here
     { c with out := c.out.push "{\"status\":\"unsupported\"}" }
   else { c with out := c.out.push badStep }
